@@ -50,7 +50,8 @@ func NewPriorityQueue(lessFn common_info.LessFn, maxQueueSize int) *PriorityQueu
 func (q *PriorityQueue) Push(it interface{}) {
 	heap.Push(&q.queue, it)
 	if q.maxQueueSize != QueueCapacityInfinite && q.queue.Len() > q.maxQueueSize {
-		heap.Remove(&q.queue, q.maxQueueSize)
+		// drop the item that would be popped last, not whatever happens to sit at the end of the heap's slice
+		heap.Remove(&q.queue, q.queue.indexOfLast())
 	}
 }
 
@@ -83,6 +84,18 @@ func (q *PriorityQueue) Len() int {
 }
 
 func (pq *priorityQueue) Len() int { return len(pq.items) }
+
+// indexOfLast returns the index of an item that no other item is ordered after. In a heap such an item is a leaf.
+func (pq *priorityQueue) indexOfLast() int {
+	n := len(pq.items)
+	last := n / 2
+	for i := last + 1; i < n; i++ {
+		if pq.Less(last, i) {
+			last = i
+		}
+	}
+	return last
+}
 
 func (pq *priorityQueue) Less(i, j int) bool {
 	if pq.lessFn == nil {
